@@ -111,6 +111,10 @@ fn resultant_smart(f: &Polynomial<BigInt>, g: &Polynomial<BigInt>) -> BigInt {
         b = pow(a.clone(), delta) * &b / pow(b, delta);
     }
     debug_assert_eq!(g.deg(), 0);
+    if f.deg() == 0 {
+        // Both are non-zero constants.
+        return BigInt::one();
+    }
     debug_assert!(f.deg() >= 1);
     let mut result = pow(g.dat.swap_remove(0), f.deg());
     result /= pow(b, f.deg() - 1);
